@@ -230,6 +230,30 @@ theorem private_copies_linearizable (sh : Shared) (progs : List (List Step)) :
       simp only [cellMap, if_true, Nat.zero_add] at h1 h2
       exact hij (privCell_thread hi hj (h2.symm.trans h1))
 
+/-- Private copies, stated against the ORIGINAL programs: when every program works on private copies (made from the Field
+    objects of the class definition: `instStore`), then for EVERY schedule every thread returns / raises exactly what the
+    ORIGINAL validator program - the one that renames the shared Field objects - computes when it runs alone.  So working on
+    private copies changes nothing sequentially and removes every interference. -/
+theorem private_copies_equal_original_sequential (sh : Shared) (progs : List (List Step)) (sched : List Nat) (i : Nat)
+    (r : Outcome)
+    (hr : resultAt (run (Cfg.init (instStore progs.length sh) (instFrom (fun _ => true) progs.length 0 progs)) sched) i
+      = some r) : ∃ p, progs[i]? = some p ∧ sequentialResult sh p = some r := by
+  obtain ⟨p', hp', hs⟩ := private_copies_linearizable (instStore progs.length sh) progs sched i r hr
+  rw [instFrom_get] at hp'
+  cases hpi : progs[i]? with
+  | none => simp [hpi] at hp'
+  | some p =>
+    simp only [hpi, Option.map_some, Option.some.injEq, Nat.zero_add] at hp'
+    subst hp'
+    refine ⟨p, rfl, ?_⟩
+    have hi : i < progs.length := (List.getElem?_eq_some_iff.mp hpi).1
+    rw [← hs]
+    symm
+    apply rename_sequential _ (cellMap_injective _ hi)
+    intro c
+    simp only [cellMap, if_true]
+    exact instStore_priv hi sh c
+
 /-- THE POSITIVE THEOREM, conditional on the generated table: on a tree whose shared-write table has no unsafe row, the
     thread programs of ANY concurrent validation calls (collections and multi-field wrappers, any number of threads,
     same field or different fields, shared item instances or not) are linearizable for EVERY schedule.  The driver runs
@@ -268,6 +292,36 @@ theorem no_racy_site_linearizable (tbl : List SharedWrite) (h : ∀ r ∈ tbl, (
   rw [instFrom_congr _ _ hp]
   have := private_copies_linearizable sh (calls.map Call.prog)
   simpa using this
+
+/-- End-to-end form, exactly what the driver evaluates (`modelProgs` of the tree's table, started from `instStore`): on a
+    tree without a racy site, for EVERY schedule of ANY concurrent validation calls, every call returns / raises what the
+    original validator program of that call computes when it runs alone. -/
+theorem no_racy_site_equals_sequential (tbl : List SharedWrite) (h : ∀ r ∈ tbl, (!r.safe && r.readBack) = false)
+    (sites : List (Nat × String)) (sh : Shared) (calls : List Call) (sched : List Nat) (i : Nat) (r : Outcome)
+    (hr : resultAt (run (Cfg.init (instStore calls.length sh) (modelProgs tbl sites calls)) sched) i = some r) :
+    ∃ c, calls[i]? = some c ∧ sequentialResult sh c.prog = some r := by
+  have hp : ∀ c, tablePriv tbl sites c = (fun _ => true) c := by
+    intro c
+    simp only [tablePriv, List.all_eq_true, Bool.or_eq_true, Bool.not_eq_true']
+    intro p _
+    right
+    simp only [siteRacy, List.any_eq_false]
+    intro r hr
+    have := h r hr
+    rw [Bool.and_assoc, this]
+    simp
+  unfold modelProgs at hr
+  rw [instFrom_congr _ _ hp] at hr
+  have hl : calls.length = (calls.map Call.prog).length := by simp
+  rw [hl] at hr
+  obtain ⟨p, hp1, hp2⟩ := private_copies_equal_original_sequential sh (calls.map Call.prog) sched i r hr
+  simp only [List.getElem?_map] at hp1
+  cases hc : calls[i]? with
+  | none => simp [hc] at hp1
+  | some c =>
+    simp only [hc, Option.map_some, Option.some.injEq] at hp1
+    subst hp1
+    exact ⟨c, rfl, hp2⟩
 
 /-- Clause 1 of C20 holds in the model for EVERY schedule and every set of programs, racy or not: the result of a thread
     only contains values of that thread's own input (the temp structures are thread-private; what the race corrupts is
@@ -409,6 +463,44 @@ theorem model_follows_table :
       [1,1,1,1,1,1,1,0,0,0,1,1,1,1,0,0,0,0]) 0 = some (.ok [10]) ∧
     (∀ r ∈ repairedTable, (!r.safe && r.readBack) = false) := by decide
 
+/-- calls whose reads of the scratch cells are dead: flat `OneOf` / `NotField` (option errors are swallowed, option results
+    dropped) -/
+def deadReads : Call → Bool
+  | .wrap .oneOf _ _ _ => true
+  | .wrap .notField _ _ _ => true
+  | _ => false
+
+/-- `OneOf.__set__` / `NotField.__set__` on a field of the class itself are linearizable for EVERY schedule although they
+    rename option Field objects that other threads (and other fields) use: nothing ever reads the written name back
+    effectively.  (Their rows stay in the table - the writes ARE there - but by themselves they cannot change a result;
+    what the harness attributes to these sites is the race on the OWNER's name when the wrapper is nested under a
+    homogeneous collection, i.e. the extract_field_value finding.) -/
+theorem flat_oneOf_notField_linearizable (sh : Shared) (calls : List Call) (h : ∀ c ∈ calls, deadReads c = true) :
+    Linearizable sh (calls.map Call.prog) := by
+  apply conflict_free_linearizable
+  intro i j p q _ hp _ c _ hr
+  simp only [List.getElem?_map] at hp
+  cases hci : calls[i]? with
+  | none => simp [hci] at hp
+  | some ci =>
+    simp only [hci, Option.map_some, Option.some.injEq] at hp
+    subst hp
+    have hd := h ci (List.mem_of_getElem? hci)
+    cases ci with
+    | wrap kind name v os =>
+      cases kind with
+      | oneOf => simp [Call.prog, oneOf_reads] at hr
+      | notField => simp [Call.prog, notField_reads] at hr
+      | allOf => simp [deadReads] at hd
+      | anyOf => simp [deadReads] at hd
+    | _ => simp [deadReads] at hd
+
+/-- non-vacuity: two `OneOf` fields sharing their option objects, fully interleaved -/
+theorem flat_oneOf_example :
+    resultAt (run (Cfg.init sh0 [progOneOf (.const "a") 5 [(0, true), (1, false)], progOneOf (.const "b") 7 [(0, true), (1, false)]])
+      [0,1,0,1,0,1,0,1,0,1,0,1]) 0 = some (.ok [5]) ∧
+    deadReads (.wrap .oneOf "a" 5 [(0, true), (1, false)]) = true := by decide
+
 /-- the full statement is false -/
 theorem C20_statement_false : ¬ C20_statement := by
   intro h
@@ -430,7 +522,8 @@ def knownFindingKeys : List String := [
   "shared-_name:multified_wrappers.py:AllOf.__set__",
   "shared-_name:multified_wrappers.py:AnyOf.__set__",
   "shared-_name:multified_wrappers.py:OneOf.__set__",
-  "shared-_name:multified_wrappers.py:NotField.__set__"
+  "shared-_name:multified_wrappers.py:NotField.__set__",
+  "shared-<container>:structures.py:UniqueMixin.__manage_uniqueness_for_field__"
 ]
 
 /-- does the current working tree still have a racy validator site?  (`false` ⇒ `no_racy_site_linearizable` applies to
